@@ -350,7 +350,8 @@ def do_op(game, meta: Dict, op: List, am) -> Any:
     b = net.get_node_by_hostname(B)
 
     def req(action, **options):
-        return sim.apply_request(am.form_request(action, options)).status
+        # (node-send-remote-command answers None instead of a RequestResponse when no reply came back - C05's business)
+        return getattr(sim.apply_request(am.form_request(action, options)), "status", "no-response")
 
     if k == "tick":
         game.step()
@@ -400,9 +401,10 @@ def do_op(game, meta: Dict, op: List, am) -> Any:
             return "absent"
         return str(dbc.query(op[1]))
     if k == "ftp_send":
-        return sim.apply_request(["network", "node", A, "service", "ftp-client", "send",
-                                  {"dest_ip_address": ip_b, "src_folder_name": "loot", "src_file_name": "a.txt",
-                                   "dest_folder_name": op[1] if len(op) > 1 else "drop", "dest_file_name": "a.txt"}]).status
+        return getattr(sim.apply_request(["network", "node", A, "service", "ftp-client", "send",
+                                          {"dest_ip_address": ip_b, "src_folder_name": "loot", "src_file_name": "a.txt",
+                                           "dest_folder_name": op[1] if len(op) > 1 else "drop",
+                                           "dest_file_name": "a.txt"}]), "status", "no-response")
     if k == "login":
         user, pwd = {"admin": ("admin", "admin"), "user": ("u0", "p0"), "bad": ("admin", "wrong")}[op[1]]
         return req("node-session-remote-login", node_name=A, remote_ip=ip_b, username=user, password=pwd)
@@ -651,8 +653,8 @@ def gadget(draw, a_sw: List[str], b_sw: List[str], post: bool, arp_scan_ok: bool
         out = []
         if k not in a_sw:
             out += [["install", k], ["configure", k]] + [["tick"]] * _pick(draw, 3)
-        elif draw(st.booleans()):
-            out += [["configure", k]]
+        elif k == "dos" or draw(st.booleans()):
+            out += [["configure", k]]  # (a preinstalled dos-bot has no target until it is configured)
         out += [["execute", k]] + [["tick"]] * _pick(draw, 4)
         if _pick(draw, 5) == 0:
             out += [["remove", k]]
